@@ -8,15 +8,24 @@ FAMILY = dict(
               "(BadGame), port given / defaulted (theship_dp)"),
 )
 
-# ---- C10: the info request is a retried unit whose failure is the query's failure (players / rules are gathered with
-# Try by this entry point, so their exhaustion surfaces as the conversion's PacketBad, not as a timeout-class error)
+# ---- C10: info, players and rules are retried units; players / rules are gathered with Try by this entry point and then
+# required by the conversion, so their exhaustion surfaces as the conversion's PacketBad, not as a timeout-class error
+# (recorded finding, see c10_known)
 
 def c10_eligible(valid):
     return valid.want.startswith("OK") and not valid.notwf
 
 
 def c10_units(valid):
-    return [0]
+    return [0, 1, 2]  # info, players, rules
+
+
+def c10_known(unit, want_res, got):
+    """signature of the recorded finding (known_findings.json): the players / rules units are gathered with Try and then
+    required by the conversion, so their exhaustion is reported as PacketBad instead of the timeout-class error"""
+    if unit in (1, 2) and want_res in ("ERR PacketReceive", "ERR PacketSend") and got == "ERR PacketBad":
+        return "retry-exhausted:theship:section-reported-as-packetbad"
+    return None
 
 
 def c10_build(valid, unit, v, r, new_id):
@@ -50,7 +59,7 @@ def c10_build(valid, unit, v, r, new_id):
 
 def c10_attempts(valid, unit, sends, clean):
     ch = [int(x) for x in valid.tags["CH"].split(",")]
-    kind_sends = sum(1 for (_, _, data, _) in sends if data[8:10] == "54")
+    kind_sends = sum(1 for (_, _, data, _) in sends if data[8:10] == ("54", "55", "56")[unit])
     return kind_sends - (ch[unit] if clean else 0)
 
 
